@@ -413,14 +413,14 @@ theorem gpair_iterate (hR : RelOK W R) (hd : ∀ b, DecoChunk b → W b) (var : 
       | done => exact ih _ _
       | cont e => exact ih _ _
 
-theorem gpair_loopRun (hR : RelOK W R) (hd : ∀ b, DecoChunk b → W b) (P : Prims) (path : Bytes) (loc : Loc) (tr : Bool)
+theorem gpair_loopRun {budget : Int} (hR : RelOK W R) (hd : ∀ b, DecoChunk b → W b) (P : Prims) (path : Bytes) (loc : Loc) (tr : Bool)
     (var : Bytes) (e : Expr) (mods : LoopMods) {bodyM bodyM' : M Status} (hb : GPair R bodyM bodyM') (tooMany : Bool)
     (elseM elseM' : Option (M Status))
     (he : match elseM, elseM' with
       | none, none => True
       | some m, some m' => GPair R m m'
       | _, _ => False) :
-    GPair R (loopRun P path loc tr var e mods bodyM tooMany elseM) (loopRun P path loc tr var e mods bodyM' tooMany elseM') := by
+    GPair R (loopRun budget P path loc tr var e mods bodyM tooMany elseM) (loopRun budget P path loc tr var e mods bodyM' tooMany elseM') := by
   unfold loopRun
   refine gpair_wrapAt hR _ _ (gpair_bind hR (gpair_quiet hR quiet_getEnv) (fun env =>
     gpair_bind hR (gpair_quiet hR (quiet_ofRes _)) (fun v =>
